@@ -102,6 +102,17 @@ CLAIMED['C10'] = dict(
     technique='TLA+ term model + TLC exhaustive enumeration; spec->code replay with byte-level leaf comparison by the harness',
     design_ref='3/C10')
 
+CLAIMED['C15'] = dict(
+    text=('FrozenHeap.tla: Python containers as a heap (plain dicts, FrozenDict objects with a private dict), API actions transcribed from '
+          'frozen_dict.py (constructor = shallow copy + _prepare_freeze, __getitem__, unfreeze, copy, pop) interleaved with an adversary '
+          'that mutates every plain dict reachable from anything the user holds; TLC checks that the value of every FrozenDict ever created '
+          'is constant and that no private dict is user-reachable. StructNode.tla: field layouts (data / pytree_node=False), replace, '
+          'attribute assignment, jit with a trace cache keyed by the static fields. Histories (exhaustive small, simulated long) are '
+          'replayed on real objects; values, ==, hash vs an equal FrozenDict built in another order, pickle, flatten/unflatten, tree_map, '
+          'FrozenInstanceError, retrace counts, leaves, vmap and grad reconstruction are compared.'),
+    technique='TLA+ heap model with adversarial mutation + TLC; spec->code replay of histories',
+    design_ref='3/C15')
+
 NOT_YET = 'check not built yet in this round (planned, see DESIGN.md section 3); not claimed until its specification is bound to the code'
 ALL = ['C%02d' % i for i in range(1, 21)]
 
